@@ -103,7 +103,7 @@ def main():
             "level_note": c["note"],
             "technique": c["technique"],
         })
-    na = [{"property_id": p, "reason": NOT_APPLICABLE.get(p, "check not built yet in this round (work in progress; see DESIGN.md §9)")} for p in ALL if p not in CHECKS]
+    na = [{"property_id": p, "reason": NOT_APPLICABLE.get(p, "check built (System.tla, Trace_System.tla, system driver) but not registered: on the unchanged tree it still reports C07_volatile_late_joiner_got_history for a TransientLocal writer with a Volatile late joiner in another participant (candidate finding S18, being classified) and one unexplained C07_sample_missing; it will be claimed once every report is either repaired or listed in known_findings.json")} for p in ALL if p not in CHECKS]
     m = {
         "version": 1,
         "setup_cmd": "./bin/setup",
